@@ -258,10 +258,10 @@ var All = []Dec{
 	{"sen.Parse", "sen", false, func(x []byte, _ jsongen.Plan) (any, error) { return sen.Parse(x) }},
 	{"sen.Parser.ParseReader", "sen", true, func(x []byte, pl jsongen.Plan) (any, error) { var p sen.Parser; return p.ParseReader(pl.Reader(x)) }},
 	{"sen.Tokenizer.Parse+collector", "sen", false, func(x []byte, _ jsongen.Plan) (any, error) {
-		return tok(func(h oj.TokenHandler) error { t := sen.Tokenizer{}; return t.Parse(x, h) })
+		return tok(func(h oj.TokenHandler) error { t := sen.Tokenizer{OnlyOne: true}; return t.Parse(x, h) })
 	}},
 	{"sen.Tokenizer.Load+collector", "sen", true, func(x []byte, pl jsongen.Plan) (any, error) {
-		return tok(func(h oj.TokenHandler) error { t := sen.Tokenizer{}; return t.Load(pl.Reader(x), h) })
+		return tok(func(h oj.TokenHandler) error { t := sen.Tokenizer{OnlyOne: true}; return t.Load(pl.Reader(x), h) })
 	}},
 }
 
